@@ -278,7 +278,7 @@ func oneInput(data []byte) (res result) {
 }
 
 var byteAlpha = []string{"a", "(", ")", "\"", "`", "'", "/", "*", "\n", "\r", " ", "\\", "\xff", "é", ",", "\ufffd"}
-var atomAlpha = []string{"a", "b", "(", ")", "[", "]", ",", "\"s t\"", "`r`", "//c", "// d ", "\n", "\r\n", " ", "\t", "a//",
+var atomAlpha = []string{"a", "b", "(", ")", "[", "]", ",", "\"s t\"", "`r`", "//c", "// d ", "\n", "\r\n", " ", "\t", "a//", "{", "}", "\x01", "\u00a0",
 	"module", "go", "require", "retract", "1.21", "a.com/m", "v1.0.0", "=>", "/*", "\"unterminated", "use", "./x"}
 
 // ---------------------------------------------------------------- watchdog
